@@ -65,6 +65,68 @@ func genC17(gen *sim.Stream, maxDecls int) *c17Input {
 			}
 		}
 	}
+	// consecutive vars sometimes share one spec with an explicit type whose expression
+	// mentions an identifier twice: `var a, b map[int]int = ..., ...`
+	pairWith := make([]int, n) // index of the second name of the spec, 0 = none
+	second := make([]bool, n)
+	mapvar := make([]int, n) // 0 no, r > 0: map type nested r deep, r < 0: func type with -r parameters
+	for i := 0; i+1 < n; i++ {
+		if kinds[i] == "var" && kinds[i+1] == "var" && !second[i] && gen.Draw(3) == 0 {
+			pairWith[i] = i + 1
+			second[i+1] = true
+			r := 1 + gen.Draw(4)
+			if gen.Draw(2) == 0 {
+				r = -r
+			}
+			mapvar[i], mapvar[i+1] = r, r
+		}
+	}
+	// map-typed pairs are initialised through a helper function declared last in the source
+	// (one per nesting depth); it is an ordinary declaration of the graph
+	helper := map[int]int{}
+	for i := 0; i < n; i++ {
+		if r := mapvar[i]; r > 0 && gen.Draw(3) != 0 {
+			h, ok := helper[r]
+			if !ok {
+				h = len(names)
+				helper[r] = h
+				names = append(names, fmt.Sprintf("z%d", r))
+				kinds = append(kinds, "func")
+				refs = append(refs, nil)
+				pairWith = append(pairWith, 0)
+				second = append(second, false)
+				mapvar = append(mapvar, 0)
+			}
+			refs[i] = append(refs[i], h)
+		}
+	}
+	nOrig := n
+	n = len(names)
+	pairType := func(r int) string {
+		if r > 0 {
+			return strings.Repeat("map[int]", r) + "int"
+		}
+		return "func(" + strings.TrimSuffix(strings.Repeat("int, ", -r), ", ") + ") int"
+	}
+	pairInit := func(r int, expr string, k int) string {
+		if r > 0 {
+			if h, ok := helper[r]; ok && strings.Contains(expr, names[h]+"()") {
+				// the helper is among the references: call it with the remaining terms
+				rest := strings.TrimSuffix(strings.TrimPrefix(strings.Replace(expr, names[h]+"()", "", 1), " + "), " + ")
+				rest = strings.Replace(rest, " +  + ", " + ", 1)
+				if rest == "" {
+					rest = "2"
+				}
+				return names[h] + "(" + rest + ")"
+			}
+			return pairType(r) + "{" + strings.Repeat(fmt.Sprint(k)+": {", r-1) + fmt.Sprint(k) + ": " + expr + strings.Repeat("}", r)
+		}
+		var ps []string
+		for q := 0; q < -r; q++ {
+			ps = append(ps, fmt.Sprintf("p%d", q))
+		}
+		return fmt.Sprintf("func(%s int) int {\n\treturn p0 + %s\n}", strings.Join(ps, ", "), expr)
+	}
 	// a name that is NOT referenced by i, used as a shadowing parameter/result/local in i
 	decoy := func(i int) string {
 		var cand []string
@@ -94,7 +156,22 @@ func genC17(gen *sim.Stream, maxDecls int) *c17Input {
 		case "type":
 			return "len([]" + names[j] + "{})"
 		}
+		if r := mapvar[j]; r > 0 {
+			return "len(" + names[j] + ")"
+		} else if r < 0 {
+			return names[j] + "(" + strings.TrimSuffix(strings.Repeat("1, ", -r), ", ") + ")"
+		}
 		return names[j]
+	}
+	exprOf := func(i int) string {
+		var terms []string
+		for _, j := range refs[i] {
+			terms = append(terms, use(j))
+		}
+		if len(terms) == 0 {
+			return "1"
+		}
+		return strings.Join(terms, " + ")
 	}
 	for i := 0; i < n; i++ {
 		d := c17Decl{Kind: kinds[i], Name: names[i], Refs: refs[i]}
@@ -110,6 +187,14 @@ func genC17(gen *sim.Stream, maxDecls int) *c17Input {
 		case "const":
 			d.Src = fmt.Sprintf("const %s = %s\n", names[i], expr)
 		case "var":
+			if second[i] {
+				break // rendered together with the previous declaration
+			}
+			if k := pairWith[i]; k != 0 {
+				r := mapvar[i]
+				d.Src = fmt.Sprintf("var %s, %s %s = %s, %s\n", names[i], names[k], pairType(r), pairInit(r, expr, 0), pairInit(r, exprOf(k), 1))
+				break
+			}
 			switch gen.Draw(3) {
 			case 0:
 				d.Src = fmt.Sprintf("var %s = %s\n", names[i], expr)
@@ -137,6 +222,12 @@ func genC17(gen *sim.Stream, maxDecls int) *c17Input {
 			}
 			d.Src = fmt.Sprintf("type %s struct {\n%s}\n", names[i], strings.Join(fields, ""))
 		case "func":
+			if i >= nOrig {
+				r := 0
+				fmt.Sscanf(names[i], "z%d", &r)
+				d.Src = fmt.Sprintf("func %s(x int) %s {\n\treturn nil\n}\n", names[i], pairType(r))
+				break
+			}
 			var body strings.Builder
 			params, results := "", "int"
 			dc := decoy(i)
@@ -195,7 +286,7 @@ func genC17(gen *sim.Stream, maxDecls int) *c17Input {
 	run := 0
 	in.Stmts = []int{0}
 	for i := range in.Decls {
-		if i > 0 && gen.Draw(5) == 0 {
+		if i > 0 && !second[i] && gen.Draw(5) == 0 {
 			ns := 1 + gen.Draw(2)
 			for k := 0; k < ns; k++ {
 				b.WriteString([]string{"println(1)\n", "if true {\n\tprintln(2)\n}\n"}[gen.Draw(2)])
@@ -250,7 +341,7 @@ func init() {
 	register(&Prop{
 		ID:    "C17",
 		Level: "exploration",
-		Rule: "one run = one dependency graph over 2..9 declarations of mixed kinds (quick; thorough up to 12) rendered as Go source with the references placed in initialisers, function-literal bodies, struct field types, array lengths and function bodies at block depth 0..2, with parameters / results / locals that shadow unrelated package-level names, optional package clause, imports and statements between runs of declarations; sorted under 1 canonical and 12 seeded map-iteration orders (every `range` over a map in base/dep is rewritten at check time to an order the simulator permutes); " +
+		Rule: "one run = one dependency graph over 2..9 declarations of mixed kinds (quick; thorough up to 12) rendered as Go source with the references placed in initialisers, function-literal bodies, struct field types, array lengths and function bodies at block depth 0..2, with parameters / results / locals that shadow unrelated package-level names, pairs of vars sharing one spec with an explicit type, optional package clause, imports and statements between runs of declarations; sorted under 1 canonical and 12 seeded map-iteration orders (every `range` over a map in base/dep is rewritten at check time to an order the simulator permutes); " +
 			"non-trivial = at least 3 declarations and 2 dependency edges; distinct = distinct source text",
 		Runs: func(tier string) int {
 			if tier == "thorough" {
@@ -274,7 +365,7 @@ func init() {
 		Assumptions: []string{
 			"the free names of every declaration are known by construction of the generator (no second free-variable analysis is trusted)",
 			"for inputs with a dependency cycle through types only determinism and the ordering constraints are checked (the property leaves the choice of forward declarations open); for acyclic inputs the order must be exactly 'repeatedly emit the earliest declaration in the source whose dependencies were all emitted'",
-			"single-name declarations only: multi-name var, iota groups and methods are not generated",
+			"multi-name var specs with an explicit type are generated for pairs of consecutive vars; iota groups and methods are not generated",
 		},
 	})
 }
